@@ -141,20 +141,13 @@ theorem blt_append_left (p a b : Bytes) : blt (p ++ a) (p ++ b) = blt a b := by
   | nil => rfl
   | cons x xs ih => simp [blt, ih]
 
-/-- FULL STATEMENT (as the code assumes it): the keys with prefix `p` are exactly `[p, cpIncr p)` -/
+/-- FULL STATEMENT: the keys with prefix `p` are exactly the range `[p, PrefixToEnd p)` that the code iterates
+(`IteratePrefix`, `NewIteratorWithPrefix`, `PrefixDB`) - for EVERY prefix: empty, 0xff tails, all 0xff -/
 def prefix_range_statement : Prop :=
-  ∀ (p k : Bytes), p ≠ [] →
-    (hasPrefix p k = true ↔ ble p k = true ∧ (cpIncrCore p = none ∨ ∃ e, cpIncrCore p = some e ∧ blt k e = true))
+  ∀ (p k : Bytes),
+    (hasPrefix p k = true ↔ ble p k = true ∧ (match prefixToEnd p with | none => True | some e => blt k e = true))
 
-/-- FALSE of the current code: `cpIncr` is a fixed-width increment, `cpIncr 66ff = 6700`, and `67 < 6700` -/
-theorem prefix_range_counterexample : ¬ prefix_range_statement := by
-  intro h
-  have := h [0x66, 0xff] [0x67] (by decide)
-  revert this
-  decide
-
-/-- `PrefixToEnd` is the right bound: for EVERY prefix (empty, 0xff tails, all 0xff included) the keys
-with prefix `p` are exactly `[p, PrefixToEnd p)` -/
+/-- proof of `prefix_range_statement` -/
 theorem prefix_range_prefixToEnd (p k : Bytes) :
     hasPrefix p k = true ↔ ble p k = true ∧ (match prefixToEnd p with | none => True | some e => blt k e = true) := by
   induction p generalizing k with
@@ -212,44 +205,67 @@ theorem prefix_range_prefixToEnd (p k : Bytes) :
             · have := y.toNat_lt
               omega
 
-/-- where the code's bound is right: if the prefix does not end in 0xff, `cpIncr` and `PrefixToEnd` coincide -/
-theorem cpIncr_eq_prefixToEnd (p : Bytes) (b : UInt8) (hb : b.toNat < 255) :
-    cpIncrCore (p ++ [b]) = prefixToEnd (p ++ [b]) := by
-  induction p with
-  | nil => simp [cpIncrCore, prefixToEnd, hb]
-  | cons x xs ih =>
-    have h1 : prefixToEnd (xs ++ [b]) ≠ none := by
-      clear ih
-      induction xs with
-      | nil => simp [prefixToEnd, hb]
-      | cons z zs ihz =>
-        simp only [List.cons_append, prefixToEnd]
-        cases h : prefixToEnd (zs ++ [b]) with
-        | none => exact absurd h ihz
-        | some r => simp
-    simp only [List.cons_append, cpIncrCore, prefixToEnd, ih]
-    cases h : prefixToEnd (xs ++ [b]) with
-    | none => exact absurd h h1
-    | some r => rfl
+theorem prefix_range : prefix_range_statement := fun p k => prefix_range_prefixToEnd p k
 
-/-- PARTIAL (true part of `prefix_range_statement`): prefixes that do not end in 0xff -/
-theorem prefix_range_partial (p k : Bytes) (b : UInt8) (hb : b.toNat < 255) :
-    hasPrefix (p ++ [b]) k = true ↔
-      ble (p ++ [b]) k = true ∧ (match cpIncrCore (p ++ [b]) with | none => True | some e => blt k e = true) := by
-  rw [cpIncr_eq_prefixToEnd p b hb]
-  exact prefix_range_prefixToEnd (p ++ [b]) k
-
-/-- the all-0xff case: `cpIncr` overflows to nil (no upper bound), and indeed every key >= p has prefix p
-only up to the end of the key space: nil is the correct bound there too -/
-theorem cpIncr_all_ff (n : Nat) : cpIncrCore (List.replicate (n + 1) 0xff) = none ∧ prefixToEnd (List.replicate (n + 1) 0xff) = none := by
+/-- the all-0xff case: no upper bound (nil), and then every key >= p has the prefix -/
+theorem prefixToEnd_all_ff (n : Nat) : prefixToEnd (List.replicate n 0xff) = none := by
   induction n with
-  | zero => decide
+  | zero => rfl
   | succ m ih =>
     rw [List.replicate_succ]
-    simp only [cpIncrCore, prefixToEnd, ih.1, ih.2]
-    constructor <;> simp
+    simp only [prefixToEnd, ih]
+    simp
 
-example : cpIncrCore [0x66, 0xff] = some [0x67, 0x00] := by decide
+theorem blt_nil_right (a : Bytes) : blt a [] = false := by cases a <;> rfl
+
+theorem ble_append_right (p t : Bytes) : ble p (p ++ t) = true := by
+  have h := blt_append_left p t []
+  rw [List.append_nil, blt_nil_right] at h
+  simp [ble, h]
+
+theorem ble_trans {a b c : Bytes} (h₁ : ble a b = true) (h₂ : ble b c = true) : ble a c = true := by
+  rcases (ble_iff a b).mp h₁ with h | h
+  · rcases (ble_iff b c).mp h₂ with h' | h'
+    · exact (ble_iff a c).mpr (Or.inl (blt_trans h h'))
+    · subst h'; exact h₁
+  · subst h; exact h₂
+
+theorem blt_of_blt_of_ble {a b c : Bytes} (h₁ : blt a b = true) (h₂ : ble b c = true) : blt a c = true := by
+  rcases (ble_iff b c).mp h₂ with h | h
+  · exact blt_trans h₁ h
+  · subst h; exact h₁
+
+theorem blt_of_ble_of_blt {a b c : Bytes} (h₁ : ble a b = true) (h₂ : blt b c = true) : blt a c = true := by
+  rcases (ble_iff a b).mp h₁ with h | h
+  · exact blt_trans h h₂
+  · subst h; exact h₂
+
+/-- `cpDecr p` (when it does not underflow) is strictly below `p`, hence below every key with prefix `p` -/
+theorem cpDecr_lt {p d : Bytes} (h : cpDecrCore p = some d) : blt d p = true := by
+  induction p generalizing d with
+  | nil => simp [cpDecrCore] at h
+  | cons b rest ih =>
+    simp only [cpDecrCore] at h
+    cases hr : cpDecrCore rest with
+    | some r =>
+      simp only [hr, Option.some.injEq] at h
+      subst h
+      simp [blt, ih hr]
+    | none =>
+      simp only [hr] at h
+      by_cases hb : 0 < b.toNat
+      · simp only [hb, if_true, Option.some.injEq] at h
+        subst h
+        have h1 : (b - 1).toNat = b.toNat - 1 := by
+          rw [UInt8.toNat_sub_of_le]
+          · rfl
+          · exact UInt8.le_iff_toNat_le.mpr (by simp; omega)
+        have : (b - 1).toNat < b.toNat := by omega
+        simp [blt, this]
+      · simp [hb] at h
+
+example : cpDecrCore [0x67, 0x00] = some [0x66, 0xff] := by decide
+example : cpDecrCore [0x00, 0x00] = none := by decide
 example : prefixToEnd [0x66, 0xff] = some [0x67] := by decide
 example : hasPrefix [0x61] [0x61, 0x62] = true ∧ blt [0x61, 0x62] [0x62] = true := by decide
 
